@@ -408,7 +408,11 @@ impl CommandBuilder<'_> {
         if let Some(replace_str) = &self.options.replace {
             // Replace all occurrences in initial args with the extra arg,
             // Thanks to `MaxArgsCommandSizeLimiter`, we only process a single extra arg here.
-            let replacement = self.extra_args[0].to_string_lossy();
+            // No input line: nothing to substitute, hence nothing to run.
+            let Some(replacement) = self.extra_args.first() else {
+                return Ok(CommandResult::Success);
+            };
+            let replacement = replacement.to_string_lossy();
             let initial_args: Vec<OsString> = initial_args
                 .iter()
                 .map(|arg| {
